@@ -570,6 +570,59 @@ static void run_imp(const Case& c) {
     }
 }
 
+// h5read <id> <rank> <nrec> <nb> <n> <step(+ or -)> : writes $XDG_DATA_HOME/ivh_<id>.h5 with /PhaseSpace/data of the
+// given rank (3: [nrec][n][n], 4: [nrec][nb][n][n], 2: [nrec][n], 5: [nrec][1][nb][n][n], 0: scalar) whose record r is
+// filled with the value r+1, then calls the real HDF5File::readPhaseSpace(file, ..., step):
+//   "txt refused" if it throws, else "ints <grid size> <record loaded>" and "vals <every distinct value of the data>"
+#include <hdf5.h>
+#include "IO/HDF5File.hpp"
+static void run_h5read(const Case& c) {
+    int rank = std::stoi(c.head[2]);
+    hsize_t nrec = std::stoull(c.head[3]), nb = std::stoull(c.head[4]), n = std::stoull(c.head[5]);
+    int64_t step = std::stoll(c.head[6]);
+    std::string dir = std::getenv("XDG_DATA_HOME") ? std::getenv("XDG_DATA_HOME") : "/tmp";
+    std::string fn = dir + "/ivh_" + c.id + "_" + std::to_string(getpid()) + ".h5";
+    {
+        hid_t f = H5Fcreate(fn.c_str(), H5F_ACC_TRUNC, H5P_DEFAULT, H5P_DEFAULT);
+        hid_t g = H5Gcreate2(f, "/PhaseSpace", H5P_DEFAULT, H5P_DEFAULT, H5P_DEFAULT);
+        hsize_t dims[5] = {nrec, n, n, n, n};
+        if (rank == 4) { dims[1] = nb; }
+        if (rank == 5) { dims[1] = 1; dims[2] = nb; }
+        hid_t pl = H5Pcreate(H5P_DATASET_CREATE);
+        hid_t sp;
+        if (rank == 0) sp = H5Screate(H5S_SCALAR);
+        else if (nrec == 0) {
+            hsize_t maxd[5], chunk[5];
+            for (int i = 0; i < rank; i++) { maxd[i] = dims[i]; chunk[i] = dims[i] ? dims[i] : 1; }
+            maxd[0] = H5S_UNLIMITED; chunk[0] = 1;
+            sp = H5Screate_simple(rank, dims, maxd);
+            H5Pset_chunk(pl, rank, chunk);
+        } else sp = H5Screate_simple(rank, dims, nullptr);
+        hid_t ds = H5Dcreate2(f, "/PhaseSpace/data", H5T_IEEE_F32LE, sp, H5P_DEFAULT, pl, H5P_DEFAULT);
+        size_t per = 1; for (int i = 1; i < rank; i++) per *= dims[i];
+        size_t total = rank == 0 ? 1 : per * nrec;
+        if (total > 0) {
+            std::vector<float> v(total);
+            for (size_t i = 0; i < total; i++) v[i] = static_cast<float>(i / per + 1);
+            H5Dwrite(ds, H5T_NATIVE_FLOAT, H5S_ALL, H5S_ALL, H5P_DEFAULT, v.data());
+        }
+        H5Dclose(ds); H5Sclose(sp); H5Pclose(pl); H5Gclose(g); H5Fclose(f);
+    }
+    std::cout << "case " << c.id << '\n';
+    PhaseSpace::resetSize();
+    H5::Exception::dontPrint();
+    try {
+        auto ps = HDF5File::readPhaseSpace(fn, -6, 6, -6, 6, nullptr, 1.0, 1.0, 1e-3, 6.11e5, step);
+        const float* d = ps->getData();
+        float lo = d[0], hi = d[0];
+        for (size_t i = 0; i < static_cast<size_t>(PhaseSpace::nxyb); i++) { lo = std::min(lo, d[i]); hi = std::max(hi, d[i]); }
+        std::cout << "ints " << PhaseSpace::nx << ' ' << static_cast<long>(lo) - 1 << ' ' << static_cast<long>(hi) - 1 << '\n';
+    } catch (...) {
+        std::cout << "txt refused\n";
+    }
+    unlink(fn.c_str());
+}
+
 static bool dispatch_more(const Case& c) {
     if (c.kind == "imp") { run_imp(c); return true; }
     if (c.kind == "rot") { run_rot(c); return true; }
@@ -579,6 +632,7 @@ static bool dispatch_more(const Case& c) {
     if (c.kind == "opts") { run_opts(c); return true; }
     if (c.kind == "ef") { run_ef(c); return true; }
     if (c.kind == "ps" || c.kind == "psg") { run_ps(c); return true; }
+    if (c.kind == "h5read") { run_h5read(c); return true; }
     if (c.kind == "coeffsweep") { run_coeffsweep(c); return true; }
     if (c.kind == "rf") { run_rf(c); return true; }
     if (c.kind == "drift") { run_drift(c); return true; }
